@@ -158,6 +158,19 @@ def run(ctx: Ctx):
                 v0 = nf.strip(v)
                 if v0.op == "cell0" and v0.args[1] in gr.cell_rank and k not in ranks.cell_rank:
                     ranks.cell_rank[k] = gr.cell_rank[v0.args[1]]
+        st0 = env.slot("_step")
+        if st0 is not None and st0.td is not None:
+            # a state cell keeps its rank across steps (TorchRL specs fix the shapes of state keys)
+            ranks.forced = getattr(ranks, "forced", {})
+            for k, v in st0.td.cells.items():
+                if k in ranks.cell_rank and not (v.op == "cell0" and v.args[1] == k):
+                    ranks.forced[v.id] = ranks.cell_rank[k]
+                    ranks.forced[nf.strip(v).id] = ranks.cell_rank[k]
+            for k, v in st0.td.cells.items():
+                if k not in ranks.cell_rank and not (v.op == "cell0" and v.args[1] == k):
+                    rk = ranks.rank(v)
+                    if rk is not None:
+                        ranks.cell_rank[k] = rk
         uni = uniform_keys(env)
         for meth in ("_reset", "_step", "get_action_mask", "_get_reward", "check_solution_validity"):
             if meth in ("get_action_mask", "check_solution_validity") and not env.own(meth):
